@@ -142,7 +142,10 @@ func init() {
 				c.Skip()
 			}
 		}
-		env := c.Choose(4) // 0 unset, 1 one value, 2 two values with delimiter, 3 set but empty
+		env := c.Choose(5) // 0 unset, 1 one value, 2 two values with delimiter, 3 set but empty, 4 three pieces of which the middle one is empty
+		if env == 4 && ty.T != decl.TStrings {
+			c.Skip() // an empty piece is an element only for string elements
+		}
 		ncli := c.Choose(3)
 		nini := c.Choose(3)
 		hi := c.Choose(len(c05Histories))
@@ -168,7 +171,7 @@ func init() {
 		if strings.HasPrefix(hist, "config") && nini == 0 {
 			c.Skip()
 		}
-		cd := c05Get(ti, initial, ndef, env == 2, nest, nsDelim, cfgPos)
+		cd := c05Get(ti, initial, ndef, env == 2 || env == 4, nest, nsDelim, cfgPos)
 		delim := []string{"_", "", "__"}[nsDelim]
 
 		// the sources' values
@@ -188,6 +191,8 @@ func init() {
 			envV, envText = []string{ty.Texts[4], ty.Texts[5]}, ty.Texts[4]+","+ty.Texts[5]
 		case 3:
 			envV = []string{""}
+		case 4:
+			envV, envText = []string{ty.Texts[4], "", ty.Texts[5]}, ty.Texts[4]+",,"+ty.Texts[5]
 		}
 		for i := 0; i < ndef; i++ {
 			defV = append(defV, ty.Texts[6+i])
@@ -243,7 +248,7 @@ func init() {
 		default:
 			winner = "initial"
 		}
-		if env == 3 && ty.T != decl.TString && ncli == 0 {
+		if env == 3 && ty.T != decl.TString && ty.T != decl.TStrings && ncli == 0 {
 			// an empty environment value for a non-string option: the statement does not say whether it provides a value.
 			// Skipped wherever the environment is consulted: it wins, or the command line is parsed before the INI file is read.
 			if winner == "env" || hist == "C" || hist == "CD" || hist == "config-default-last" {
@@ -297,8 +302,15 @@ func init() {
 
 		// run the history on the real library
 		// (one more deviation: built through the API, the option's group added only after a first parse on the parser)
-		lateGroup := nest >= 1 && nest <= 4 && c.Deviate(2) == 1
+		// (another one: the parser itself carries an env-namespace, which prefixes the keys of every group below it)
+		parserNS := nest >= 1 && nest <= 4 && c.Deviate(2) == 1
+		lateGroup := nest >= 1 && nest <= 4 && !parserNS && c.Deviate(2) == 1
 		b := cd.d.BuildTags()
+		if parserNS {
+			// groups added with AddGroup hang below the parser's own group, whose env-namespace is the parser's
+			// (groups nested in the struct given to NewParser do not: that group is attached to the parser directly)
+			b = cd.d.BuildAPI()
+		}
 		if lateGroup {
 			b = cd.d.BuildAPIWith(func(hb *decl.Built) {
 				hb.Parser.ParseArgs(nil)
@@ -331,9 +343,15 @@ func init() {
 			c.Hit("reused-ini-parser")
 		}
 		p.EnvNamespaceDelimiter = delim
+		envKey := cd.envKey
+		if parserNS {
+			p.EnvNamespace = "APP"
+			envKey = "APP" + delim + envKey
+			c.Hit("parser-env-namespace")
+		}
 		if envSet {
-			os.Setenv(cd.envKey, envText)
-			defer os.Unsetenv(cd.envKey)
+			os.Setenv(envKey, envText)
+			defer os.Unsetenv(envKey)
 		}
 		readIni := func(asDefaults bool) error {
 			ip := flags.NewIniParser(p)
@@ -418,9 +436,9 @@ func init() {
 		ShardDepth: 3,
 		Body:       body,
 		DevBound:   func(bool) int { return 2 },
-		Rule: "12 option types (a string whose default tag is empty, a []string whose first default tag is empty, string, int, bool, *int, []string, []int, map[string]int, Unmarshaler, map[string]string with one key in every source, a slice-kinded Unmarshaler that appends) x initial value present/absent x 0..2 default tags x environment {unset, one value, two values with env-delim, set-but-empty} " +
+		Rule: "12 option types (a string whose default tag is empty, a []string whose first default tag is empty, string, int, bool, *int, []string, []int, map[string]int, Unmarshaler, map[string]string with one key in every source, a slice-kinded Unmarshaler that appends) x initial value present/absent x 0..2 default tags x environment {unset, one value, two values with env-delim, set-but-empty, three pieces with an empty middle one (for []string)} " +
 			"x 0..2 INI entries x 0..2 command-line occurrences x 10 histories (CLI only; INI then CLI; as-defaults INI then CLI; CLI then as-defaults INI; as-defaults, CLI, as-defaults; as-defaults read from a callback option given before / after the occurrences; " +
-			"from a callback option's default declared first / last; two as-defaults reads then CLI) x env-namespace nesting {none, outer, outer+inner, outer only around a plain inner group, inner only inside a plain outer group, option declared on a subcommand, or on a command two levels down, that the command line selects only when the option occurs} x EnvNamespaceDelimiter {_, empty, __} (nesting/delimiter deviation-bounded); one more deviation uses a single IniParser object for all reads of a history; another builds the parser through the API and adds the option's group only after a first ParseArgs; a second []string option initialised from the same backing array must keep its value; " +
+			"from a callback option's default declared first / last; two as-defaults reads then CLI) x env-namespace nesting {none, outer, outer+inner, outer only around a plain inner group, inner only inside a plain outer group, option declared on a subcommand, or on a command two levels down, that the command line selects only when the option occurs} x EnvNamespaceDelimiter {_, empty, __} (nesting/delimiter deviation-bounded); one more deviation uses a single IniParser object for all reads of a history; another sets an env-namespace on the parser itself; another builds the parser through the API and adds the option's group only after a first ParseArgs; a second []string option initialised from the same backing array must keep its value; " +
 			"the history machine per option is {untouched, defaulted, ini, explicit}; oracle = precedence function CLI > INI > env > default tags > initial, multi-valued options holding exactly the winner's values",
 		Assumptions:  []string{"plain-mode INI read after a command-line parse is not ranked by the statement and is not exercised", "an empty environment value for a non-string option is skipped"},
 		RequiredHits: []string{"winner:cli", "winner:ini", "winner:env", "winner:default", "winner:initial", "history:CD", "history:DCD", "history:config-flag-after", "history:config-default-last", "option-of-a-command", "group-added-after-a-first-parse"},
